@@ -17,7 +17,8 @@ Statements:
   `< dmax`, every cell a code point; no write behind `dest + dmax` whenever the result fits at all.
   `wcsfc_overrun_witness`: it does write behind the buffer when it does not (`ßß` into 3 cells).
 * `wcsfc_return_codes` (full): EOK, ESZEROL, ESLEMAX or ESNOSPC, never the documented negative code of `towfc_s`.
-* `wcsfc_succeeds` (full): 4 cells more than the result ⇒ EOK; sharp: `wcsfc_exact_fit_witness`.
+* `wcsfc_succeeds_partial`: 4 cells more than the result ⇒ EOK ("the result and its terminator fit ⇒ EOK" is false; the margin is
+  sharp: `wcsfc_exact_fit_witness`).
 * `wcsfc_fold_then_decompose_partial`: per cell, `wcsfc_s` = `towfc_s` followed by the canonical decomposition of each cell, except
   the five code points above and the final sigma (`wcsfc_fold_then_decompose_string_partial`: whole strings);
   `wcsfc_fold_then_decompose_witness`: each of those really differs.
@@ -69,8 +70,9 @@ example : (wcsfcS current 0 [0x41]).ret = ESZEROL ∧ (wcsfcS current 2000 [0x41
     (wcsfcS current 16 [0xdf, 0xdf]).ret = 0 := by
   decide +kernel
 
-/-- 4 cells more than the result (3 besides the terminator) and `wcsfc_s` succeeds, with exactly `fcPure src` -/
-theorem wcsfc_succeeds (dmax : Nat) (src : List Nat) (hs : ∀ c ∈ src, c ≠ 0 ∧ c ≤ 0x10FFFF) (hmax : dmax ≤ RSIZE_MAX_WSTR)
+/-- 4 cells more than the result (3 besides the terminator) and `wcsfc_s` succeeds, with exactly `fcPure src`.  The full statement
+(one cell more, for the terminator) is false: `wcsfc_exact_fit_witness` -/
+theorem wcsfc_succeeds_partial (dmax : Nat) (src : List Nat) (hs : ∀ c ∈ src, c ≠ 0 ∧ c ≤ 0x10FFFF) (hmax : dmax ≤ RSIZE_MAX_WSTR)
     (hroom : (fcPure src).length + 4 ≤ dmax) :
     wcsfcS current dmax src = ⟨0, (fcPure src).length, fcPure src, false, false⟩ :=
   wcsfcS_succeeds dmax src hs hmax hroom
@@ -175,7 +177,7 @@ theorem wcsfc_announced_witness_sum :
 #print axioms wcsfc_model
 #print axioms wcsfc_overrun_witness
 #print axioms wcsfc_return_codes
-#print axioms wcsfc_succeeds
+#print axioms wcsfc_succeeds_partial
 #print axioms wcsfc_exact_fit_witness
 #print axioms wcsfc_fold_then_decompose_partial
 #print axioms wcsfc_fold_then_decompose_string_partial
